@@ -260,3 +260,13 @@ def truthy_static(v):
     if isinstance(v, PyDict):
         return len(v.items) > 0
     return None
+
+
+class StrId(object):
+    """A string known only up to equality: identified by an Int term (see symlist.py)."""
+
+    def __init__(self, ident):
+        self.ident = ident
+
+    def __repr__(self):
+        return "<strid %s>" % self.ident
